@@ -106,9 +106,119 @@ func genNativeMath(t *rapid.T) Case {
 	return cs
 }
 
+// libTemplates are small programs over library functions of /repo/pkg that
+// the program generator cannot produce (builtins such as hamming, make and
+// copy, byte slices, strings); %W is replaced by a drawn width.
+var libTemplates = map[string]string{
+	"lib-hamming": `package main
+
+import (
+	"encoding/binary"
+)
+
+func main(a, b uint%W) uint {
+	return binary.HammingDistance(a, b)
+}
+`,
+	"lib-hamming-expr": `package main
+
+import (
+	"encoding/binary"
+)
+
+func main(a, b uint%W) (uint, uint%W) {
+	d := binary.HammingDistance(a ^ 0x5, b + 1)
+	return d + binary.HammingDistance(a, a ^ b), a & b
+}
+`,
+	"lib-rotate": `package main
+
+import (
+	"math/bits"
+)
+
+func main(a, b uint32) (uint32, uint32) {
+	return bits.RotateLeft32(a, 7) ^ b, bits.RotateLeft32(b, -3) + a
+}
+`,
+	"lib-bytes": `package main
+
+import (
+	"bytes"
+)
+
+func main(a, b [4]byte) (int, bool, bool) {
+	return bytes.Compare(a, b), bytes.Equal(a, b), bytes.HasPrefix(a, b[0:2])
+}
+`,
+	"lib-getput": `package main
+
+import (
+	"encoding/binary"
+)
+
+func main(a, b [4]byte) (uint32, []byte) {
+	x := binary.GetUint32(a) + binary.GetUint32LSB(b)
+	buf := make([]byte, 8)
+	buf = binary.PutUint32(buf, 0, x)
+	buf = binary.PutUint32LSB(buf, 4, x ^ 0xff00ff00)
+	return x, buf
+}
+`,
+	"lib-hex": `package main
+
+import (
+	"encoding/hex"
+)
+
+func main(a, b [4]byte) (string, int) {
+	return hex.EncodeToString(a), hex.EncodedLen(len(b))
+}
+`,
+	"lib-copy": `package main
+
+func main(a, b [6]byte) ([8]byte, int) {
+	var buf [8]byte
+	n := copy(buf, a)
+	m := copy(buf[3:], b[1:4])
+	return buf, n + m
+}
+`,
+}
+
+var libTemplateNames = []string{"lib-hamming", "lib-hamming", "lib-hamming-expr", "lib-rotate", "lib-bytes", "lib-getput", "lib-hex", "lib-copy"}
+
+func genLibTemplate(t *rapid.T) Case {
+	name := rapid.SampledFrom(libTemplateNames).Draw(t, "libtemplate")
+	w := rapid.SampledFrom([]int{8, 16, 32, 64, 7, 33, 100}).Draw(t, "libwidth")
+	cs := Case{Src: strings.ReplaceAll(libTemplates[name], "%W", fmt.Sprint(w)), Tmpl: name,
+		Seed: rapid.Uint64().Draw(t, "seed")}
+	digits := 8
+	switch name {
+	case "lib-hamming", "lib-hamming-expr":
+		digits = (w + 3) / 4
+	case "lib-copy":
+		digits = 12
+	}
+	val := func(label string) string {
+		v, _ := new(big.Int).SetString(hexDigits(t, digits, label)[2:], 16)
+		if name == "lib-hamming" || name == "lib-hamming-expr" {
+			v.And(v, new(big.Int).Sub(new(big.Int).Lsh(big.NewInt(1), uint(w)), big.NewInt(1)))
+			return hexOf(v)
+		}
+		return "0x" + fmt.Sprintf("%0*s", digits, v.Text(16))
+	}
+	cs.X = []string{val("a")}
+	cs.Y = []string{val("b")}
+	return cs
+}
+
 func genTemplate(t *rapid.T) Case {
-	if rapid.IntRange(0, 3).Draw(t, "nativemath") == 0 {
+	switch rapid.IntRange(0, 7).Draw(t, "templatekind") {
+	case 0, 1:
 		return genNativeMath(t)
+	case 2, 3, 4:
+		return genLibTemplate(t)
 	}
 	name := rapid.SampledFrom(templateNames).Draw(t, "template")
 	cs := Case{Src: templates[name], Tmpl: name, Seed: rapid.Uint64().Draw(t, "seed")}
